@@ -125,3 +125,71 @@ func H_C08_header() {
 	}
 	vReach("end")
 }
+
+//verif:witness H_C08_array end
+//verif:bound C08 all Array with a custom encoder (the element programs of the C07 array harness, 1..3 operations over 11 kinds) followed by an ordinary field: the text layout shows the identical compact JSON the JSON layout emits for the array
+func H_C08_array() {
+	n := 1 + vChoose("nops", 3)
+	ops := make([]int, n)
+	for i := range ops {
+		ops[i] = vChoose("op", vProgOps)
+	}
+	e := &Event{Level: InfoLevel, Time: vFixedTime, File: "file.go", Line: 10, Tag: "_t_x"}
+	e.Fields = []Field{Array("arr", vProgEnc{ops}), Int("z", 1)}
+	jl := &JSONLayout{BaseLayout{FileLineLength: 48}}
+	tl := &TextLayout{BaseLayout{FileLineLength: 48}}
+	jout := append([]byte(nil), jl.ToBytes(e)...)
+	tout := append([]byte(nil), tl.ToBytes(e)...)
+	got, ok := vParseJSONLine(jout)
+	vAssume(ok && got.kind == 'o' && len(got.vals) == 6) // C07 decides validity of the JSON line
+	exp := []byte("[INFO][2025-06-01T12:30:45.123][file.go:10] _t_x||arr=")
+	exp = append(exp, got.vals[4].raw...)
+	exp = append(exp, "||z=1\n"...)
+	vAssert(vBytesEqual(tout, exp), "text-shows-the-identical-compact-json-for-a-custom-array")
+	vReach("end")
+}
+
+// vPanicEnc: a user-written encoder that fails half-way (inside a nested container).
+type vPanicEnc struct{ depth int }
+
+func (p vPanicEnc) EncodeArray(enc Encoder) {
+	enc.AppendInt64(1)
+	for i := 0; i < p.depth; i++ {
+		enc.AppendArrayBegin()
+	}
+	panic("user encoder failed")
+}
+
+func vFormatRecovered(l Layout, e *Event) (panicked bool) {
+	defer func() {
+		if recover() != nil {
+			panicked = true
+		}
+	}()
+	l.ToBytes(e)
+	return false
+}
+
+//verif:witness H_C08_sequence end
+//verif:bound C08 all sequences: an event whose user-written array encoder panics (at nesting depth 0..2, recovered by the caller), then an ordinary event through the same layout (text and JSON, sync.Pool handing back the objects just released): the second event's line is exactly what it yields alone
+func H_C08_sequence() {
+	depth := vChoose("depth", 3)
+	tl := &TextLayout{BaseLayout{FileLineLength: 48}}
+	jl := &JSONLayout{BaseLayout{FileLineLength: 48}}
+	bad := &Event{Level: InfoLevel, Time: vFixedTime, File: "file.go", Line: 9, Tag: "_t_x"}
+	bad.Fields = []Field{Array("arr", vPanicEnc{depth})}
+	var l Layout = tl
+	if vChoose("layout", 2) == 1 {
+		l = jl
+	}
+	vAssert(vFormatRecovered(l, bad), "harness-encoder-panics")
+	e := &Event{Level: InfoLevel, Time: vFixedTime, File: "file.go", Line: 10, Tag: "_t_x"}
+	e.Fields = []Field{Msg("hello"), Int("n", 1), Ints("s", []int{1, 2})}
+	out := append([]byte(nil), l.ToBytes(e)...)
+	if l == Layout(tl) {
+		vAssert(string(out) == "[INFO][2025-06-01T12:30:45.123][file.go:10] _t_x||msg=hello||n=1||s=[1,2]\n", "text-line-of-a-later-event-is-its-own")
+	} else {
+		vAssert(string(out) == "{\"level\":\"info\",\"time\":\"2025-06-01T12:30:45.123\",\"fileLine\":\"file.go:10\",\"tag\":\"_t_x\",\"msg\":\"hello\",\"n\":1,\"s\":[1,2]}\n", "json-line-of-a-later-event-is-its-own")
+	}
+	vReach("end")
+}
